@@ -19,7 +19,9 @@ ASSUMPTIONS = ["finite scores; NaN scores/thresholds are outside the property"]
 
 def _ties():
     from harness.translate import scores_tr
-    return [{"name": "scores.cm", "translate": scores_tr.translate_cm, "gen_file": "Gen_cm.v", "tie_file": "Tie_cm.v"}]
+    return [{"name": "scores.cm", "translate": scores_tr.translate_cm, "gen_file": "Gen_cm.v", "tie_file": "Tie_cm.v"},
+            {"name": "scores.pointwise_cm", "translate": scores_tr.translate_pointwise, "gen_file": "Gen_pointwise.v",
+             "tie_file": "Tie_pointwise.v"}]
 
 
 TIES = _ties()
